@@ -1,3 +1,4 @@
 #![allow(dead_code, unused_imports, clippy::all)]
+pub mod model;
 #[cfg(kani)]
 mod c08;
